@@ -61,6 +61,11 @@ void random_knobs(Rng &r, const std::string &domain, Json &params) {
       any = true;
     }
   }
+  if (domain.find("tvpi") != std::string::npos) {
+    static const char *co[] = {"2", "2,3", "3,5", "2,4,7"};
+    k.set("fixed_tvpi.coefficients", co[r.below(4)]);
+    any = true;
+  }
   if (domain.find("oct") != std::string::npos) {
     if (r.chance(2, 3)) {
       b("oct.chrome_dijkstra");
